@@ -1,5 +1,6 @@
 import Proofs.SqlParserTotal
 import PyxModel.Sql.Loader
+import Proofs.SqlAttrNames
 
 set_option linter.unusedSimpArgs false
 
@@ -74,11 +75,14 @@ theorem popClasses_error (u : UC) : ∀ (stmts : List Stmt) (s : BState) (e : Bu
       | error e' =>
         rw [hd] at h
         simp only [Except.error.injEq] at h; subst h
-        unfold defineClass at hd
-        split at hd
-        · simp only [Except.error.injEq] at hd; subst hd
-          exact ⟨rfl, kind, attrs, by simp⟩
-        · simp at hd
+        have he : e' = .metaErr := by
+          unfold defineClass at hd
+          split at hd
+          · simp only [Except.error.injEq] at hd; exact hd.symm
+          · split at hd
+            · simp at hd
+            · simp only [Except.error.injEq] at hd; exact hd.symm
+        exact ⟨he, kind, attrs, by simp⟩
       | ok s' =>
         rw [hd] at h
         obtain ⟨h1, k, a, hm⟩ := ih s' e h
@@ -286,12 +290,14 @@ theorem newRowOk_false (u : UC) (c : ClassB) (h : newRowOk u c = false) :
 
 /-- why one INSERT statement fails: the parsing exception for an arity mismatch of a named INSERT or a value that
     `deserialize_value` cannot read for the type of its column; the metamodel exception for a (non-referential)
-    attribute whose type `default_value` does not know.  `c` is the class of the statement's kind, declared or inferred. -/
+    attribute whose type `default_value` does not know, or for a named INSERT into an undeclared class two of whose
+    names coincide after upper-casing.  `c` is the class of the statement's kind, declared or inferred. -/
 theorem popInstance_error (u : UC) (s : BState) (kind : Name) (values : List Text) (names : Option (List Name)) (e : BuildErr)
     (h : popInstance u s kind values names = .error e) :
     (e = .parseErr ∧ ((∃ ns, names = some ns ∧ ns ≠ [] ∧ ns.length ≠ values.length) ∨
         ∃ c : ClassB, ∃ a ∈ c.attrs, ∃ v ∈ values, deserialize u a.2 v = none)) ∨
-    (e = .metaErr ∧ ∃ c : ClassB, ∃ a ∈ c.attrs, c.referential.contains a.1 = false ∧ tyOfName u a.2 = none) := by
+    (e = .metaErr ∧ ((∃ c : ClassB, ∃ a ∈ c.attrs, c.referential.contains a.1 = false ∧ tyOfName u a.2 = none) ∨
+        (∃ ns, names = some ns ∧ ns ≠ [] ∧ s.find? u kind = none ∧ attrNamesOk u (inferredAttrs u ns values) = false))) := by
   unfold popInstance at h
   by_cases hmis : (isNamed names && (names.getD []).length != values.length) = true
   · simp only [hmis, if_true, Except.error.injEq] at h; subst h
@@ -305,6 +311,26 @@ theorem popInstance_error (u : UC) (s : BState) (kind : Name) (values : List Tex
       | nil => simp [isNamed] at hnamed
       | cons n ns' => exact ⟨n :: ns', rfl, by simp, by simpa using hne⟩
   · simp only [hmis, Bool.false_eq_true, if_false] at h
+    by_cases hinf : inferOk u s kind (isNamed names) (names.getD []) values = true
+    case neg =>
+      simp only [hinf, Bool.not_false, if_true, Except.error.injEq] at h; subst h
+      right; refine ⟨rfl, Or.inr ?_⟩
+      cases names with
+      | none => exact absurd (inferOk_positional u s kind _ values) (by simpa [isNamed] using hinf)
+      | some ns =>
+        cases ns with
+        | nil => exact absurd (inferOk_positional u s kind _ values) (by simpa [isNamed] using hinf)
+        | cons n ns' =>
+          refine ⟨n :: ns', rfl, by simp, ?_⟩
+          simp only [isNamed, Option.getD_some] at hinf
+          unfold inferOk at hinf
+          cases hs : s.find? u kind with
+          | some c => simp [hs] at hinf
+          | none =>
+            rw [hs] at hinf
+            simp only [inferredFor, if_true] at hinf
+            exact ⟨rfl, by simpa using hinf⟩
+    simp only [hinf, Bool.not_true, Bool.false_eq_true, if_false] at h
     cases hfind : (ensureClass u s kind (isNamed names) (names.getD []) values).find? u kind with
     | none =>
       exfalso
@@ -322,7 +348,7 @@ theorem popInstance_error (u : UC) (s : BState) (kind : Name) (values : List Tex
       · simp only [hrow, if_true, Except.error.injEq] at h; subst h
         right
         obtain ⟨a, ha, h1, h2⟩ := newRowOk_false u c (by simpa using hrow)
-        exact ⟨rfl, c, a, ha, h1, h2⟩
+        exact ⟨rfl, Or.inl ⟨c, a, ha, h1, h2⟩⟩
       · simp only [hrow, Bool.false_eq_true, if_false] at h
         cases hcells : cellsOf u c (isNamed names) (names.getD []) values with
         | ok cells => rw [hcells] at h; simp at h
@@ -378,7 +404,8 @@ def MetaCause (u : UC) (stmts : List Stmt) : Prop :=
   (∃ kind name attrs, Stmt.createIndex kind name attrs ∈ stmts ∧ attrs ≠ []) ∨
   (∃ rel sk sc sks sp tk tc tks tp, Stmt.createRop rel sk sc sks sp tk tc tks tp ∈ stmts) ∨
   (∃ kind values names, Stmt.insert kind values names ∈ stmts ∧
-    ∃ c : ClassB, ∃ a ∈ c.attrs, c.referential.contains a.1 = false ∧ tyOfName u a.2 = none)
+    ((∃ c : ClassB, ∃ a ∈ c.attrs, c.referential.contains a.1 = false ∧ tyOfName u a.2 = none) ∨
+     (∃ ns, names = some ns ∧ ns ≠ [] ∧ attrNamesOk u (inferredAttrs u ns values) = false)))
 
 /-- the documented causes of the parsing exception during a build -/
 def ParseCause (u : UC) (stmts : List Stmt) : Prop :=
@@ -413,6 +440,9 @@ theorem build_error_cause (u : UC) (stmts : List Stmt) (e : BuildErr) (h : build
         obtain ⟨k, v, n, s', hm, hp⟩ := popInstances_witness u stmts s3 e h
         rcases popInstance_error u s' k v n e hp with ⟨he, hc⟩ | ⟨he, hc⟩
         · exact Or.inr ⟨he, k, v, n, hm, hc⟩
-        · exact Or.inl ⟨he, Or.inr (Or.inr (Or.inr ⟨k, v, n, hm, hc⟩))⟩
+        · refine Or.inl ⟨he, Or.inr (Or.inr (Or.inr ⟨k, v, n, hm, ?_⟩))⟩
+          rcases hc with hc | ⟨ns, h1, h2, _, h4⟩
+          · exact Or.inl hc
+          · exact Or.inr ⟨ns, h1, h2, h4⟩
 
 end Pyx.Sql
